@@ -1,4 +1,5 @@
 import Proofs.NoPanic
+import Proofs.StdNoPanic
 /-!
 # C01 — parsing and rendering never panic: the result is output or a located error
 
@@ -258,3 +259,11 @@ theorem run_result (P : Prims) (O : OutPrims) (h : PrimsNoPanic P O) (cfg : Cfg)
   | err e => exact Or.inr (Or.inl ⟨e, rfl⟩)
   | panic w => exact absurd hr (run_noPanic P O h cfg fs fuel src line env w)
   | unmodelled w => exact Or.inr (Or.inr ⟨w, rfl⟩)
+
+/-- **C01 for the standard configuration.** With the standard value layer (`stdPrims`: comparison,
+    `values.Call`, every modelled filter body; `stdOut`: `writeObject`) the hypothesis of
+    `run_noPanic` is a theorem (`std_noPanic`, `Proofs/StdNoPanic.lean`): parsing and rendering
+    never panic, unconditionally. -/
+theorem run_std_noPanic (cfg : Cfg) (fs : FS) (fuel : Nat) (src : Bytes) (line : Nat) (env : Env) :
+    ∀ w, run stdPrims stdOut cfg fs fuel src line env ≠ .panic w :=
+  run_noPanic stdPrims stdOut std_noPanic cfg fs fuel src line env
